@@ -58,7 +58,10 @@ func (s *verifSrc) FetchAll(ctx context.Context) ([]*model.ProviderInfo, error) 
 
 func (s *verifSrc) String() string { return s.name }
 
-func TestVerifC06Histories(t *testing.T) {
+func TestVerifC06Histories(t *testing.T)     { verifC06Run(t, 3) }
+func TestVerifC06HistoriesDeep(t *testing.T) { verifC06Run(t, 4) }
+
+func verifC06Run(t *testing.T, depth int) {
 	pids := []peer.ID{peer.ID("12D3KooWprovider-one"), peer.ID("12D3KooWprovider-two")}
 	// step kinds applied before each refresh: which source advances which provider,
 	// and whether the refresh is clean, loses a source, or is cancelled at a source
@@ -121,11 +124,18 @@ func TestVerifC06Histories(t *testing.T) {
 			}
 		}
 	}
-	for _, a := range steps {
-		run([]step{a})
-		for _, b := range steps {
-			run([]step{a, b})
+	var rec func(h []step)
+	rec = func(h []step) {
+		if len(h) > 0 {
+			run(h)
+		}
+		if len(h) == depth {
+			return
+		}
+		for _, st := range steps {
+			rec(append(h[:len(h):len(h)], st))
 		}
 	}
+	rec(nil)
 	fmt.Printf("CASES %d\n", cases)
 }
